@@ -271,7 +271,7 @@ package lnwallet
 //@   site call restorePendingLocalUpdates: assert pendingRemoteCommit != nil && arg(1) == pendingRemoteCommitDiff && arg(2) == pendingRemoteKeys
 //@
 //@ func (lc *LightningChannel) restorePendingRemoteUpdates
-//@   props C02 C03
+//@   props C01 C02 C03 C08
 //@   bounds-safe
 //@   loop * havoc
 //@   site store Dual.Remote: assert pendingRemoteCommit != nil && value == pendingRemoteCommit.height &&
@@ -966,3 +966,26 @@ package lnwallet
 //@   ensures (t == Add || t == NoOpAdd || t == FeeUpdate) && whoseCommitChain == lntypes.Remote ==> pd.addCommitHeights.Remote == nextHeight
 //@   ensures (t == Add || t == NoOpAdd) ==> pd.removeCommitHeights.Local == old(pd.removeCommitHeights.Local) && pd.removeCommitHeights.Remote == old(pd.removeCommitHeights.Remote)
 //@   ensures (t == Settle || t == Fail || t == MalformedFail) ==> pd.addCommitHeights.Local == old(pd.addCommitHeights.Local) && pd.addCommitHeights.Remote == old(pd.addCommitHeights.Remote)
+//@
+//@ // ---- restoring the updates of our dangling commitment: every restored entry carries the stored log index and the
+//@ // ---- amount of its parent (or, for a fee update, the exact sat/kw -> msat conversion, no narrower arithmetic)
+//@ func (lc *LightningChannel) logUpdateToPayDesc
+//@   props C01 C02 C03
+//@   bounds-safe
+//@   loop * havoc
+//@   requires logUpdate != nil && 0 <= feeRate && feeRate <= 1<<40
+//@   let m = logUpdate.UpdateMsg
+//@   let known = typeis(m, *lnwire.UpdateAddHTLC) || typeis(m, *lnwire.UpdateFulfillHTLC) || typeis(m, *lnwire.UpdateFailHTLC) ||
+//@           typeis(m, *lnwire.UpdateFailMalformedHTLC) || typeis(m, *lnwire.UpdateFee)
+//@   ensures result1 == nil && known ==> result0 != nil && result0.LogIndex == logUpdate.LogIndex
+//@   ensures result1 == nil && known && !typeis(m, *lnwire.UpdateAddHTLC) ==> result0.EntryType == ite(typeis(m, *lnwire.UpdateFulfillHTLC), Settle,
+//@           ite(typeis(m, *lnwire.UpdateFailHTLC), Fail, ite(typeis(m, *lnwire.UpdateFailMalformedHTLC), MalformedFail, FeeUpdate)))
+//@   site call lookupHtlc nth 0: assert arg(0) == remoteUpdateLog && arg(1) == dynptr(m, *lnwire.UpdateFulfillHTLC).ID
+//@   site call lookupHtlc nth 1: assert arg(0) == remoteUpdateLog && arg(1) == dynptr(m, *lnwire.UpdateFailHTLC).ID
+//@   site call lookupHtlc nth 2: assert arg(0) == remoteUpdateLog && arg(1) == dynptr(m, *lnwire.UpdateFailMalformedHTLC).ID
+//@   site store paymentDescriptor.Amount nth 0: assert value == dynptr(m, *lnwire.UpdateAddHTLC).Amount
+//@   site store paymentDescriptor.Amount nth 1: assert value == ret(lookupHtlc, 0).Amount
+//@   site store paymentDescriptor.Amount nth 2: assert value == ret(lookupHtlc, 1).Amount
+//@   site store paymentDescriptor.Amount nth 3: assert value == ret(lookupHtlc, 2).Amount
+//@   site store paymentDescriptor.Amount nth 4: assert value == ret(NewMSatFromSatoshis)
+//@   site call NewMSatFromSatoshis: assert arg(0) == dynptr(m, *lnwire.UpdateFee).FeePerKw
